@@ -78,6 +78,9 @@ func genPatterns(r *rand.Rand, rich bool) []PatSpec {
 		// to placeholder siblings: a name ending on such a node belongs to
 		// the placeholder pattern
 		{nil, "model.far.away.leaf", []string{"", "mg"}, 1},
+		// the same tag as in model.$id at another position: a group
+		// template shared by two patterns is resolved per pattern
+		{nil, "by.owner.$id", []string{"g.${id}", "${id}", "mg"}, 1},
 		// the empty pattern: the resource named like the service, and the
 		// one named like a mount point
 		{nil, "", []string{"", "mg", "rootg"}, 1},
@@ -115,10 +118,25 @@ func genPatterns(r *rand.Rand, rich bool) []PatSpec {
 		}
 		out = append(out, p)
 	}
+	// two patterns with the tag at different positions share one template
+	var mi, bi = -1, -1
+	for i := range out {
+		switch out[i].Pattern {
+		case "model.$id":
+			mi = i
+		case "by.owner.$id":
+			bi = i
+		}
+	}
+	if mi >= 0 && bi >= 0 && chance(r, 70) {
+		g := pick(r, "g.${id}", "${id}")
+		out[mi].Group, out[bi].Group = g, g
+		out[mi].Parallel, out[bi].Parallel = false, false
+	}
 	return out
 }
 
-var tokAlphabet = []string{"1", "2", "3", "set", "new", "x", "sub", "item", "deep", "far", "away"}
+var tokAlphabet = []string{"1", "2", "3", "set", "new", "x", "sub", "item", "deep", "far", "away", "owner"}
 
 // instantiate builds a concrete resource name for a pattern.
 func instantiate(r *rand.Rand, full string, small bool) string {
